@@ -240,6 +240,16 @@ func replayOne(rf *vstat.ReplayFile) string {
 		}
 		return ""
 	}
+	if rf.Property == "C09" && rf.Part == "callback" {
+		var sc cbScenario
+		if err := json.Unmarshal(rf.Scenario, &sc); err != nil {
+			return "bad scenario: " + err.Error()
+		}
+		if _, err := runCallback(&sc); err != nil {
+			return err.Error()
+		}
+		return ""
+	}
 	if rf.Property == "C09" && rf.Part == "alias" {
 		var sc aliasScenario
 		if err := json.Unmarshal(rf.Scenario, &sc); err != nil {
